@@ -71,7 +71,7 @@ func c11Build(root string, l c11Layout) string {
 		switch l.Key {
 		case "adjacent", "both":
 			build = kA
-		case "redkey":
+		case "redkey", "malformed+redkey":
 			build = kR
 		}
 	}
@@ -103,13 +103,18 @@ func c11Build(root string, l c11Layout) string {
 		writeKey(filepath.Join(root, "REDKEY", sub), kR)
 	case "malformed":
 		must(os.WriteFile(filepath.Join(dir, "game.dkey"), []byte("this is not hex at all, sorry!!!"), 0o644))
+	case "malformed+redkey":
+		// the adjacent key file exists (and wins) but is unusable; a good key waits in REDKEY: it must not be
+		// taken silently instead
+		must(os.WriteFile(filepath.Join(dir, "game.dkey"), []byte("0123456789abcdef"), 0o644)) // too short
+		writeKey(filepath.Join(root, "REDKEY", sub), kR)
 	}
 	return "/" + filepath.Join(l.Dir, sub, "game"+l.Ext)
 }
 
 func C11(e *Env) {
 	run := e.Run
-	run.Rule = "cases: the full finite product directory-name case {PS3ISO,ps3iso,Ps3Iso,GAMES} x extension {.iso,.ISO,.Iso,.bin} x nesting {direct, one level below} x key {none, adjacent, REDKEY, both (different), malformed} x watermark {none, encrypted, decrypted} x length {<0xF70, 0xF90..0x106F, exactly 0x106F / 0x1070 / 0x1071, >=0x1070, multi-sector}; each layout is opened through the real FS.Open (sequential read + windows overlapping 0xF70..0x1070 + open-for-write pass-through) and a sample/all through the server; bytes compared with the transformation selected by the decision table transcribed from the statement; non-trivial = distinct (layout class, selected transformation)"
+	run.Rule = "cases: the full finite product directory-name case {PS3ISO,ps3iso,Ps3Iso,GAMES} x extension {.iso,.ISO,.Iso,.bin} x nesting {direct, one level below} x key {none, adjacent, REDKEY, both (different), malformed, malformed adjacent + good REDKEY} x watermark {none, encrypted, decrypted} x length {<0xF70, 0xF90..0x106F, exactly 0x106F / 0x1070 / 0x1071, >=0x1070, multi-sector}; each layout is opened through the real FS.Open (sequential read + windows overlapping 0xF70..0x1070 + open-for-write pass-through) and a sample/all through the server; bytes compared with the transformation selected by the decision table transcribed from the statement; non-trivial = distinct (layout class, selected transformation)"
 	if _, err := refcrypt.SelfCheck(); err != nil {
 		fatalf("refcrypt self-check: %v", err)
 	}
@@ -119,7 +124,7 @@ func C11(e *Env) {
 	for _, d := range []string{"PS3ISO", "ps3iso", "Ps3Iso", "GAMES"} {
 		for _, x := range []string{".iso", ".ISO", ".Iso", ".bin"} {
 			for _, n := range []string{"direct", "nested"} {
-				for _, k := range []string{"none", "adjacent", "redkey", "both", "malformed"} {
+				for _, k := range []string{"none", "adjacent", "redkey", "both", "malformed", "malformed+redkey"} {
 					for _, w := range []string{"none", "enc", "dec"} {
 						for _, ln := range []string{"<F70", "F90..106F", "=106F", "=1070", "=1071", ">=1070", "multi"} {
 							id++
